@@ -256,7 +256,12 @@ def case_classes(ctx, i, rng):
     if "ms" in feats:
         obj["ms"] = [spec("SubA", a=2), spec("SubList", items=[1, 2], t=[3, "q"]), {"class_path": "vf.fixtures.zoo.WithDictKwargs", "init_args": {"a": 4}, "dict_kwargs": {"extra": [1, {"k": 2}]}}]
     if "dm" in feats:
-        obj["dm"] = {"k1": spec("SubB", c=0.25), "k2": spec("Base", a=5)}
+        obj["dm"] = {"k1": spec("SubB", c=0.25), "k2": spec("Base", a=5), "k3": {"class_path": "vf.fixtures.zoo.WithDictKwargs", "init_args": {"a": 2}, "dict_kwargs": {"extra": 1}}}
+        if rng.random() < 0.5:
+            import collections
+
+            obj["dm"] = collections.OrderedDict(obj["dm"])  # a mapping type of its own: copies must reach inside it too
+            ctx.count("st.ordereddict_of_class_specs")
     if "holder" in feats:
         obj["holder"] = copy.deepcopy(holder)
     if "tp" in feats:
